@@ -49,6 +49,14 @@ CLAIMED["C06"] = dict(
    text="The real solve() methods of the (1+1) EA and FEA run with a stub process on a symbolic symmetric instance (n<=6, thorough 7): start tour = arbitrary permutation, integers() = arbitrary value, 1-3 loop iterations; every register(x, y) observed must pass a permutation and its exact tour length, the EA's values never increase, every FEA table index lies in 0..upper bound AND inside the table the code allocated (table modelled as a z3 array of the allocated symbolic length). This drives the move filter and both kernels, including i=0 and j=n-2.",
    note="Trusted: z3 (arrays+LIA), stubs of Process/Generator listed in the evidence. Each iteration starts from an arbitrary (permutation, exact length) pair, so the step covers runs of any length by induction. Outside: asymmetric instances.",
    design="4/C06")
+CLAIMED["C09"] = dict(
+   text="Objective: the real _evaluate source on fully symbolic matrices equals sum f_ij*d_{p(i)p(j)} for every permutation (n<=4, term-level identity). Instance: the real Instance.__init__ (trivial_bounds with a sorting network, dtype selection, astype) run with one matrix from a seeded concrete pool (incl. all-zero, ties) and the other symbolic, both roles, all permutations: stored matrices = given and fit the dtype, lower <= value <= upper. Loader: from_qaplib_stream on QAPLIB text whose numbers are symbolic and whose wrapping into lines is decided by forking at every token boundary (all 128 wrappings for n=2): size, flows first, distances second.",
+   note="Trusted: z3; sorting-network/astype/multiply shims; the compiled kernel accumulates in float64 for unsigned dtypes - exact below 2^53 which the property's bound 10^15 implies. Outside: instance clauses with BOTH matrices symbolic (unknown at 300 s already for n=2), digit-level parsing. Two genuine defects found and repaired (known_findings.json).",
+   design="4/C09")
+CLAIMED["C16"] = dict(
+   text="Real-arithmetic equivalence of the real kernels (z3 Real; arctan/exp uninterpreted): polynomial controllers: the coefficient of every parameter is obtained by substitution and must be a distinct monomial, and the map parameter->monomial must be a bijection onto ALL monomials of degree 1..d; partially linear controllers: output = linear law of an anchor at minimal squared distance (nonlinear products abstracted to uninterpreted terms, counterexamples realised constructively and replayed); peaks and generated ANNs (text captured from the real CodeGenerator, ~300 architectures in quick: inputs 2..6, outputs 1..6, 0..3 hidden layers of width 1..8) = the network evaluated layer by layer with the documented parameter layout and parameter count; Stuart-Landau and Lorenz = the published equations; no kernel writes state/params or leaves its arrays.",
+   note="Reals stand in for floats: the claim is algebraic (the compiled kernels use fastmath, so their float result is association dependent anyway). Outside: min_ann, predefined controllers, the coupled-oscillator equations (no independent source offline). Two genuine defects found and repaired.",
+   design="4/C16", category="translation_validation")
 NA = {
  "C12": "quantifies over complete optimisation runs (moptipy Execution/Process, RNG streams, log files, budgets): no bounded symbolic encoding within reach; its solver-decidable ingredients are claimed under C01, C02, C04-C06, C19",
 }
